@@ -362,6 +362,13 @@ func c09Cases(tier string) []c09Case {
 		if p == "big" && tier != "thorough" {
 			st = 97
 		}
+		if p == "big" && tier == "thorough" {
+			// ~64000 offsets with three restarts each: split into chunks so that no single case runs for minutes
+			for from := int64(0); from < 70000; from += 2500 {
+				cs = append(cs, c09Case{Kind: "sweep", P: p, N: p, Mode: "oldname", From: from, To: from + 2499, Stride: 1})
+			}
+			continue
+		}
 		cs = append(cs, c09Case{Kind: "sweep", P: p, N: p, Mode: "oldname", From: 0, To: -1, Stride: st})
 	}
 	// process KILLED inside the store write at byte N (strace injects SIGKILL), then several restarts and a follow-up update
